@@ -521,6 +521,11 @@ OSD_descr_get(PyObject* self, PyObject* inst, PyObject* cls)
         return getObjectSpecification(module, cls);
     }
 
+    if (cls == NULL) {
+        /* ``descr.__get__(inst)`` / ``descr.__get__(inst, None)`` */
+        cls = Py_None;
+    }
+
     provides = PyObject_GetAttr(inst, str__provides__);
     /* Return __provides__ if we got it, or return NULL and propagate
      * non-AttributeError. */
